@@ -1,2 +1,8 @@
-import Mfi.Fx
-import Mfi.Model.Panic
+import Mfi.Props.C02
+import Mfi.Props.C03
+import Mfi.Props.C06
+import Mfi.Props.C14
+import Mfi.Props.C15
+import Mfi.Props.C17
+import Mfi.Props.C18
+import Mfi.Props.C20
